@@ -12,6 +12,7 @@ import typing
 
 from tools.lib import core
 from tools.harness.codec import campaign, dsdlgen, model as modelmod, proto, valgen
+from tools.harness import c05_probe
 
 PROP = 'C05'
 
@@ -682,6 +683,38 @@ def check_meta(tgt: proto.Target, c: dict, got: str, mexp: dict, known_ok: bool 
     return n, probs, strata
 
 
+def check_probe(fam: str, c: dict, got: typing.Dict[str, str], flags: typing.Dict[str, str]) -> typing.Tuple[int, typing.List[dict]]:
+    """values read from COMPILED code by tools/harness/c05_probe.py vs. the DSDL definition (pydsdl) and the model's flags"""
+    want = pydsdl_expected(c)
+    port = want['port_id']
+    exp: typing.Dict[str, str] = {'has': '1' if port is not None else '0', 'port': 'none' if port is None else str(port),
+                                  'ext': str(want['extent_bytes']), 'buf': str(want['buffer_bytes'])}
+    if fam == 'c':
+        exp['name'] = c['full_name']
+        exp['namever'] = '%s.%d.%d' % (c['full_name'], c['major'], c['minor'])
+        for f in c['fields']:
+            if f['type']['k'] in ('farr', 'varr'):
+                exp['cap.' + f['name']] = str(f['type']['n'] if f['type']['k'] == 'farr' else f['type']['cap'])
+                exp['var.' + f['name']] = '1' if f['type']['k'] == 'varr' else '0'
+    else:
+        exp['svc'] = '1' if c.get('service_part') else '0'
+        if c.get('service_part'):
+            exp.update({'req': '1' if c['service_part'] == 'Request' else '0', 'rsp': '1' if c['service_part'] == 'Response' else '0', 'issvc': '0'})
+    if c['kind'] == 'union':
+        exp['count'] = str(len(c['fields']))
+    probs = []
+    for k, v in exp.items():
+        if got.get(k) != v:
+            probs.append({'key': k, 'got': got.get(k), 'pydsdl': v, 'model': flags.get(k), 'impl_wrong': True})
+    for k, v in flags.items():            # model (scanned branches) vs. DSDL
+        if k in exp and v != exp[k]:
+            probs.append({'key': k, 'got': got.get(k), 'pydsdl': exp[k], 'model': v, 'impl_wrong': got.get(k) != exp[k]})
+    extra = set(got) - set(exp)
+    if extra:
+        probs.append({'key': 'unexpected keys', 'got': sorted(extra), 'pydsdl': None, 'model': None, 'impl_wrong': True})
+    return len(exp), probs
+
+
 def needed_files(prep, tid: str) -> typing.Dict[str, str]:
     need = set()
 
@@ -751,7 +784,7 @@ def caps_for(tier: str, rng, maxb: int) -> typing.List[int]:
 
 def main(chk: core.Check, replay: typing.Optional[str] = None) -> int:
     t_start = time.time()
-    res = core.coq_check(PROP, ['c05'])
+    res = core.coq_check(PROP, ['c05', 'c01', 'codec_tpl'])
     chk.proof_coverage(res, TRUSTED)
     broken: typing.List[str] = []
     if not res.ok:
@@ -872,6 +905,48 @@ def main(chk: core.Check, replay: typing.Optional[str] = None) -> int:
         for tid in tids[:6]:
             if len(samples) < 24 and meta_results:
                 samples.append({'request': 'meta ' + tid, 'target': meta_results[0][0], 'got': meta_results[0][2][tids.index(tid)][:400]})
+
+        # ---- A2. every exported macro / constexpr read from compiled code (probe) ----
+        probed = set()
+        for lab, tgt in prep.targets:
+            if tgt.name not in ('c', 'cpp') or (chk.tier == 'quick' and tgt.name in probed):
+                continue
+            probed.add(tgt.name)
+            okp, res_p = (c05_probe.probe_c if tgt.name == 'c' else c05_probe.probe_cpp)(tgt, db)
+            if not okp:
+                failures.append({'kind': 'probe-build', 'label': lab, 'log': res_p, 'files': spec['files']})
+                continue
+            freqs = []
+            for tid in tids:
+                pe = pydsdl_expected(db.comp(tid))['port_id']
+                sp = '1' if db.comp(tid).get('service_part') else '0'
+                freqs.append('flag %s has %s %s' % (tgt.name, 'none' if pe is None else pe, sp))
+                if tgt.name == 'cpp':
+                    freqs.append('flag cpp svc %s %s' % ('none' if pe is None else pe, sp))
+            fres = iter(m5.run(freqs)) if ok5 else iter([])
+            for tid in tids:
+                flags = {}
+                if ok5:
+                    flags['has'] = next(fres, 'ok ?').split()[-1]
+                    if tgt.name == 'cpp':
+                        flags['svc'] = next(fres, 'ok ?').split()[-1]
+                n, probs = check_probe(tgt.name, db.comp(tid), res_p.get(tid, {}), flags)
+                evaluations += 1
+                validated += n
+                stats['probe_values_compared'] = stats.get('probe_values_compared', 0) + n
+                wrong = [p for p in probs if p.get('impl_wrong', True)]
+                if probs and not wrong and not any(f['kind'] == 'model-vs-impl' for f in failures):
+                    failures.append({'kind': 'model-vs-impl', 'label': lab, 'tid': tid, 'problems': probs, 'files': needed_files(prep, tid)})
+                if wrong:
+                    nf = len(needed_files(prep, tid))
+                    oldf = [f for f in failures if f['kind'] == 'probe' and f['label'] == lab]
+                    if oldf and oldf[0]['_nfiles'] <= nf:
+                        continue
+                    for f in oldf:
+                        failures.remove(f)
+                    failures.append({'_nfiles': nf, 'kind': 'probe', 'label': lab, 'target': tgt.name, 'options': tgt.options, 'tid': tid,
+                                     'request': 'probe ' + tid, 'problems': wrong, 'got': res_p.get(tid), 'files': needed_files(prep, tid),
+                                     'dsdl_of_failing_type': prep.spec['files'].get(db.comp(tid)['source'], '')})
 
         # ---- B. capacities 0..max+1 on C and C++ ----
         ser_cases = []
@@ -1014,6 +1089,15 @@ def main(chk: core.Check, replay: typing.Optional[str] = None) -> int:
             break
     if not reported:
         for f in failures:
+            if f['kind'] == 'probe':
+                rep = {k: v for k, v in f.items() if not k.startswith('_')}
+                rep['broken'] = broken
+                rep['what'] = 'an exported macro / constexpr of the generated %s code, read from compiled code, differs from the DSDL definition' % f['target']
+                chk.violation(rep, found_input=True)
+                reported = True
+                break
+    if not reported:
+        for f in failures:
             if f['kind'] == 'build-failure':
                 rep = shrink_build(f, exe_codec)
                 rep['broken'] = broken
@@ -1126,7 +1210,7 @@ def shrink_build(f: dict, exe_codec: str) -> dict:
 def run_replay(chk: core.Check, path: str, exe5: typing.Optional[str], exe_codec: typing.Optional[str]) -> int:
     doc = json.load(open(path, encoding='utf-8'))
     if 'files' not in doc or 'target' not in doc or exe_codec is None:
-        res = core.coq_check(PROP, ['c05'])
+        res = core.coq_check(PROP, ['c05', 'c01', 'codec_tpl'])
         print('replay: nothing to re-run (%s); proof obligations: %s' % (doc.get('what', 'broken obligation'), 'ok' if res.ok else 'BROKEN'))
         if not res.ok:
             chk.violation({'broken': ['proof obligation'], 'coq_error': res.error_text[-2000:]}, found_input=False)
